@@ -435,7 +435,7 @@ const CAP: usize = 64 * 1024 * 1024;
 
 fn run_endless(ctx: &mut Ctx, rng: &mut Rng, index: u64) {
     let max_headers = *rng.pick(&[1usize, 7, 100, 1000]);
-    let kind = index % 12;
+    let kind = index % 14;
     let (prefix, pattern, bound, entry, label): (Vec<u8>, Vec<u8>, usize, Entry, &str) = match kind {
         0 => (b"HTTP/1.1 200 ".to_vec(), b"a".to_vec(), 16 * 1024, Entry::Direct, "status-line-without-end"),
         1 => (b"HTTP/1.1 200 OK\r\nX-Long: ".to_vec(), b"v".to_vec(), 16 * 1024, Entry::Direct, "header-line-without-end"),
@@ -461,19 +461,21 @@ fn run_endless(ctx: &mut Ctx, rng: &mut Rng, index: u64) {
             (b"HTTP/1.1 200 OK\r\n".to_vec(), line, b, Entry::Tunnel, "connect-reply-header-fields-without-end")
         }
         10 => (b"".to_vec(), b"\r\n".to_vec(), 16 * 1024, Entry::Direct, "blank-lines-without-end"),
+        12 => (b"HTTP/1.1 407 Denied\r\nContent-Length: 18446744073709551615\r\n\r\n".to_vec(), b"refusal body ".to_vec(), 10 * 1024, Entry::Tunnel, "connect-refusal-body-with-huge-announced-length"),
+        13 => (b"HTTP/1.1 502 Bad\r\nContent-Length: 50331648\r\n\r\n".to_vec(), b"x".to_vec(), 10 * 1024, Entry::Tunnel, "connect-refusal-body-with-48MiB-announced-length"),
         _ => {
             // header line made of bare-LF continuations only
             (b"HTTP/1.1 200 OK\r\nX-Folded: a".to_vec(), b"\n b".to_vec(), 16 * 1024, Entry::Direct, "bare-lf-continuations-without-end")
         }
     };
     let bound = 2 * bound + 16 * 1024;
-    let mut steps = seg_by(rng, index / 12, &prefix);
+    let mut steps = seg_by(rng, index / 14, &prefix);
     steps.push(Step::Endless { pattern: pattern.clone(), cap: CAP });
     ctx.count("endless_cases", 1);
     ctx.set_add("endless_constructs", label);
     let mut input = prefix.clone();
     input.extend_from_slice(&pattern);
-    drive(ctx, Hostile { steps, entry, api: ((index / 12) % N_API as u64) as u8, endless_bound: Some(bound), max_headers: Some(max_headers), label: format!("{label} max_headers={max_headers}"), input, wellformed: false });
+    drive(ctx, Hostile { steps, entry, api: ((index / 14) % N_API as u64) as u8, endless_bound: Some(bound), max_headers: Some(max_headers), label: format!("{label} max_headers={max_headers}"), input, wellformed: false });
 }
 
 // ---- declared sizes far beyond what is served ------------------------------------------------------
